@@ -161,10 +161,14 @@ func (x *Exec) loopHeader(fr *Frame, h *ssa.BasicBlock, ord int, pre *Node, st *
 	cur := st.clone()
 	mods, freshMods := x.prog.loopMods(x, fr, h)
 	allocPre := x.allocNow(st)
+	x.havocVar(cur, allocVar)
 	for _, m := range freshMods {
 		x.havocFresh(hd, cur, m, allocPre)
 	}
 	for _, m := range mods {
+		if m == allocVar {
+			continue
+		}
 		x.havocVar(cur, m)
 		if t, ok := x.vc.cellType[m]; ok {
 			x.assumeAllocated(hd, cur, Term{S: cur.vars[m].S, Sort: x.varSort(m), T: t})
